@@ -93,8 +93,8 @@ class LoopsMixin:
                     else:
                         lo, hi, step = Z.ival(pos[0]), Z.ival(pos[1]), Z.ival(pos[2])
                         stp = z3.simplify(step)
-                        if not (z3.is_int_value(stp) and stp.as_long() > 0):
-                            raise Unsupported("range step must be a positive literal", node)
+                        if not (z3.is_int_value(stp) and stp.as_long() > 0) and not self.known(s2, step > 0):
+                            raise Unsupported("range step must be known positive", node)
                     n = z3.simplify(z3.If(hi > lo, (hi - lo + step - 1) / step, z3.IntVal(0)))
                     outs.append((s2, IterView(n, lambda i, lo=lo, step=step: Z.mk_i(lo + i * step), what='range')))
                 return outs
